@@ -163,11 +163,11 @@ def main():
         res = json.loads(p.stdout.strip().split("\n")[-1]) if p.returncode == 0 else {"child": "failed: " + p.stderr[-200:]}
         for k, v in res.items():
             if v not in ("refused", "atom of table 'q1'"):
-                fail("C10:pickle-leaves-table", "pickle.dumps(%s) loaded in an interpreter that has no table 'q1' gives an %s" % (k, v),
+                fail("C10:pickle-restored-elsewhere:core", "pickle.dumps(%s) loaded in an interpreter that has no table 'q1' gives an %s" % (k, v),
                      history_text=["q1 = PeriodicTable('q1')", "pickle.dumps(%s)" % k, "new interpreter: pickle.loads(..)"], key=k)
                 break
     except Exception as e:  # noqa
-        fail("C10:pickle-leaves-table:raises", "the cross-interpreter pickle probe raised %s: %s" % (type(e).__name__, e))
+        fail("C10:pickle-restored-elsewhere:core:raises", "the cross-interpreter pickle probe raised %s: %s" % (type(e).__name__, e))
     try:
         nlazy = lazy_breadth(fail)
     except Exception as e:  # noqa
